@@ -255,3 +255,36 @@ m('c10-waiting-swallows-failure', 'C10', PS, "        except Interruption:\n    
 m('c10-silent-swap-context-and-wake', 'C10', WC, "        key = self._awaiting.pop(awaitable)\n        try:\n            self.process.ctx[key] = awaitable.result()  # type: ignore\n        except Exception as exception:\n            self._waiting_future.set_exception(exception)\n        else:\n            if not self._awaiting:\n                self._waiting_future.set_result(lang.NULL)",
   "        key = self._awaiting.pop(awaitable)\n        try:\n            value = awaitable.result()\n        except Exception as exception:\n            self._waiting_future.set_exception(exception)\n        else:\n            if not self._awaiting:\n                self._waiting_future.set_result(lang.NULL)\n            self.process.ctx[key] = value", 'silent', None, 'order of context write and wake-up is immaterial')
 m('c10-first-wakes', 'C10', WC, "            if not self._awaiting:\n                self._waiting_future.set_result(lang.NULL)", "            if self._awaiting is not None:\n                self._waiting_future.set_result(lang.NULL)", 'fire', '_awaitable_done')
+
+# ------------------------------------------------------------------ C11
+m('c11-on-create-ignores-verdict', 'C11', P, "        if result is not None:\n            raise ValueError(result)\n", "        if result is not None:\n            self.logger.warning('invalid inputs: %s', result)\n", 'fire', 'on_create')
+m('c11-preprocess-on-raw', 'C11', P, "        raw_inputs = recursively_copy_dictionaries(dict(self._raw_inputs)) if self._raw_inputs else {}", "        raw_inputs = dict(self._raw_inputs) if self._raw_inputs else {}", 'fire', 'on_create')
+m('c11-frozendict-setitem', 'C11', UT, "    def __contains__(self, key: Any) -> bool:\n        return key in self._dict\n", "    def __contains__(self, key: Any) -> bool:\n        return key in self._dict\n\n    def __setitem__(self, key: str, value: Any) -> None:\n        self._dict[key] = value\n", 'fire', 'Frozendict')
+m('c11-validate-ports-drops', 'C11', PO, "            validation_error = port.validate(port_values.pop(name, UNSPECIFIED), breadcrumbs)\n            if validation_error:\n                return validation_error\n        return None",
+  "            validation_error = port.validate(port_values.pop(name, UNSPECIFIED), breadcrumbs)\n        return None", 'fire', 'validate_ports')
+m('c11-dynamic-verdict-dropped', 'C11', PO, "        validation_error = self.validate_dynamic_ports(port_values, breadcrumbs)\n        if validation_error:\n            return validation_error\n", "        validation_error = self.validate_dynamic_ports(port_values, breadcrumbs)\n", 'fire', 'PortNamespace.validate')
+m('c11-required-override-inverted', 'C11', PO, "        if default is UNSPECIFIED:\n            return required\n\n        return False", "        if default is UNSPECIFIED:\n            return required\n\n        return required", 'fire', 'required_override')
+m('c11-preprocess-returns-dict', 'C11', PO, "        return AttributesFrozendict(port_values)", "        return port_values", 'fire', 'pre_process')
+m('c11-nested-not-frozen', 'C11', PO, "            if isinstance(port, PortNamespace):\n                port_values[name] = port.pre_process(port_value)\n            else:\n                port_values[name] = port_value", "            port_values[name] = port_value", 'fire', 'pre_process')
+m('c11-raw-inputs-is-callers-dict', 'C11', P, "        self._raw_inputs = None if inputs is None else utils.AttributesFrozendict(inputs)", "        self._raw_inputs = inputs", 'fire', '__init__')
+m('c11-undeclared-accepted', 'C11', PO, "        if port_values and not self.dynamic:\n            msg = f'Unexpected ports {port_values}, for a non dynamic namespace'\n            return PortValidationError(msg, breadcrumbs_to_port((*breadcrumbs, self.name)))\n", "", 'fire', 'validate_dynamic_ports')
+m('c11-validator-verdict-dropped', 'C11', PO, "            if result is not None:\n                assert isinstance(result, str), 'Validator returned non string type'\n                validation_error = result", "            if result is not None:\n                assert isinstance(result, str), 'Validator returned non string type'", 'fire', 'Port.validate')
+m('c11-validate-on-live-values', 'C11', PO, "        port_values = dict(port_values)\n        port_values_clone = port_values.copy()", "        port_values_clone = dict(port_values)", 'fire', 'PortNamespace.validate')
+m('c11-callable-default-not-called', 'C11', PO, "                    if callable(default):\n                        port_value = default()\n                    else:\n                        port_value = default", "                    port_value = default", 'fire', 'pre_process')
+m('c11-silent-message-text', 'C11', PO, "            validation_error = f\"required value was not provided for '{self.name}'\"", "            validation_error = f\"required value was not provided for '{self.name}' port\"", 'silent')
+m('c11-silent-verdict-via-is-none', 'C11', PO, "        validation_error = self.validate_ports(port_values, breadcrumbs_local)\n        if validation_error:\n            return validation_error", "        validation_error = self.validate_ports(port_values, breadcrumbs_local)\n        if validation_error is not None:\n            return validation_error", 'silent')
+
+# ------------------------------------------------------------------ C12
+m('c12-store-before-validate', 'C12', P, "        if validation_error:\n            msg = f\"Error validating output '{value}' for port '{validation_error.port}': {validation_error.message}\"\n            raise ValueError(msg)\n\n        output_namespace = self._outputs\n        for sub_space in namespace:\n            output_namespace = output_namespace.setdefault(sub_space, {})\n\n        output_namespace[port_name] = value\n",
+  "        output_namespace = self._outputs\n        for sub_space in namespace:\n            output_namespace = output_namespace.setdefault(sub_space, {})\n\n        output_namespace[port_name] = value\n        if validation_error:\n            msg = f\"Error validating output '{value}' for port '{validation_error.port}': {validation_error.message}\"\n            raise ValueError(msg)\n", 'fire', 'Process.out')
+m('c12-namespace-created-before-validate', 'C12', P, "        validation_error = None\n        try:\n            port = port_namespace[port_name]", "        output_namespace = self._outputs\n        for sub_space in namespace:\n            output_namespace = output_namespace.setdefault(sub_space, {})\n        validation_error = None\n        try:\n            port = port_namespace[port_name]", 'fire', 'Process.out')
+m('c12-downgrade-successful-true', 'C12', P, "finished_state = state_cls(self, result=result, successful=False)", "finished_state = state_cls(self, result=result, successful=True)", 'fire', 'on_finish')
+m('c12-downgrade-loses-result', 'C12', P, "finished_state = state_cls(self, result=result, successful=False)", "finished_state = state_cls(self, result=None, successful=False)", 'fire', 'on_finish')
+m('c12-validation-also-when-unsuccessful', 'C12', P, "        if successful:\n            validation_error = self.spec().outputs.validate(self.outputs)", "        if True:\n            validation_error = self.spec().outputs.validate(self.outputs)", 'fire', 'on_finish')
+m('c12-no-validation-on-finish', 'C12', P, "            validation_error = self.spec().outputs.validate(self.outputs)\n            if validation_error:", "            validation_error = None\n            if validation_error:", 'fire', 'on_finish')
+m('c12-error-logged-not-raised', 'C12', P, "            raise ValueError(msg)\n\n        output_namespace = self._outputs", "            self.logger.warning(msg)\n\n        output_namespace = self._outputs", 'fire', 'Process.out')
+m('c12-emitted-wrong-value', 'C12', P, "        self.on_output_emitted(output_port, value, dynamic)", "        self.on_output_emitted(output_port, None, dynamic)", 'fire', 'Process.out')
+m('c12-outputs-mutated-elsewhere', 'C12', P, '        """Entering the RUNNING state."""\n', '        """Entering the RUNNING state."""\n        self._outputs.setdefault("started", True)\n', 'fire', 'on_run')
+m('c12-entry-failed-not-entered', 'C12', SM, "                new_state = exception.state\n                label = new_state.LABEL", "                label = new_state.LABEL", 'fire', 'transition_to')
+m('c12-dynamic-route-validates-nothing', 'C12', P, "            validation_error = port.validate_dynamic_ports({port_name: value})", "            validation_error = port.validate_dynamic_ports({})", 'fire', 'Process.out')
+m('c12-silent-rename-msg', 'C12', P, "            msg = f\"Error validating output '{value}' for port '{validation_error.port}': {validation_error.message}\"\n            raise ValueError(msg)", "            message = f\"Error validating output '{value}' for port '{validation_error.port}': {validation_error.message}\"\n            raise ValueError(message)", 'silent')
